@@ -14,6 +14,47 @@ fn main() {
     let edges = if quick { Spec::lax(3, 1, 2, 2, 1, 1, 1, 2) } else { Spec::lax(3, 1, 2, 2, 1, 2, 2, 3) };
     let ue = edges.universe();
     ctx.run_slice(Slice::new(format!("q-edges[{}]", edges.name()), ue.count(), |i, loc| check_input(&ue.get(i), loc)));
+    // large inputs (sizes 33 .. 129): every shape family with long patterns of pending pairs (a chain over all
+    // nodes, every other node, a star, deep binomial merge orders, all pairs repeated, one conflicting label)
+    let sizes: Vec<usize> = if quick { vec![33, 65] } else { vec![33, 64, 65, 129] };
+    let big = ohmc::props::structured::shapes_at(&sizes, false);
+    ctx.run_slice(Slice::new(format!("q-large[sizes {:?}: {} diagrams x 8 pair patterns]", sizes, big.len()), big.len() as u64 * 8, |i, loc| {
+        let f = &big[(i / 8) as usize].1;
+        let n = f.nodes.len();
+        let mut open = f.clone();
+        let quot: Vec<(usize, usize)> = match i % 8 {
+            0 => (1..n).map(|v| (v - 1, v)).collect(),
+            1 => (2..n).step_by(2).map(|v| (v, v - 2)).collect(),
+            2 => (1..n).rev().map(|v| (0, v)).collect(),
+            3 => {
+                // binomial merge order: blocks of 1, 2, 4, ... are merged pairwise through their last elements
+                let mut q = vec![];
+                let mut w = 1;
+                while w < n {
+                    let mut b = 0;
+                    while b + w < n {
+                        q.push(((b + 2 * w).min(n) - 1, b + w - 1));
+                        b += 2 * w;
+                    }
+                    w *= 2;
+                }
+                q
+            }
+            4 => (1..n).map(|v| (v - 1, v)).chain((1..n).map(|v| (v, v - 1))).collect(),
+            5 => (0..n).map(|v| (v, v)).collect(),
+            6 => {
+                // one node of another label in the middle of a chain: the quotient must fail and change nothing
+                open.nodes[n / 2] = 1;
+                (1..n).map(|v| (v - 1, v)).collect()
+            }
+            _ => {
+                // the other label off every chain: succeeds
+                open.nodes[n - 1] = 1;
+                (1..n - 1).map(|v| (v - 1, v)).collect()
+            }
+        };
+        check_input(&PLax { open, quot }, loc)
+    }));
     // histories: unify / quotient / new_node interleaved, from the empty diagram and from a diagram with a hyperedge and interfaces
     let b = Bounds { nodes: if quick { 4 } else { 5 }, edges: 1, pairs: 3, iface: 2, arity_s: 2, arity_t: 2, labels: 2, del_ids: 0, hyper_only: false, alphabet: Alphabet::Quotient };
     let start = PLax { open: POpen { nodes: vec![0, 0, 1], edges: vec![PEdge { label: 0, src: vec![0, 1], tgt: vec![2] }], s: vec![1, 0], t: vec![2, 0] }, quot: vec![] };
